@@ -72,7 +72,8 @@ theorem fin_init (cap maxEnq : Nat) (to ig : Bool) (progs : List Prog)
   refine ⟨rfl, rfl, ?_, ?_, ?_, ?_, rfl, ?_⟩
   · intro t ht; obtain ⟨p, hp, rfl⟩ := hth t ht
     have h1 := hnf p hp; have h2 := hns p hp
-    refine ⟨by simp [noFail], h1, ?_, by simp, by simp [stopped, stoppedOf], by simp [stopped, stoppedOf], by simp⟩
+    refine ⟨by simp [noFail], h1, ?_, by simp, by simp [stopped, stoppedOf], by simp [stopped, stoppedOf], by simp,
+      rfl, by simp⟩
     intro hk; simp [Prog.isStopper, hk] at h2
   · intro t ht; obtain ⟨p, hp, rfl⟩ := hth t ht
     simp [armedX]
